@@ -1747,7 +1747,7 @@ def c16_corr(res, exe, driver, tier, seed, tmp):
 
 import vt
 
-C02_TEXT = ["a", "b", "c", " ", " ", "x", "é", "日", "本", "😀", "́", "̈", ",", "(", "w", "m"]
+C02_TEXT = ["a", "b", "c", " ", " ", "x", "é", "日", "本", "😀", "́", "̈", ",", "(", "w", "m", ")", "(", ")", "["]
 
 
 def gen_c02(rng, mode):
@@ -1808,6 +1808,12 @@ def c02_cases(tier, seed):
                         initial=p_tty.mk_initial(rng, 0.25, C02_TEXT + ["\n"] + (["\t", "\t"] if cols >= 20 else [])))
         if rng.random() < 0.3:
             c.meta["tab_stop"] = rng.choice([1, 2, 3, 4, 8, 16])
+        if rng.random() < 0.15:
+            # the bracket highlighter colours the line (SGR sequences inside the text written): judged by the emulator only,
+            # the model has no highlighter
+            c.meta["highlight"] = 1
+            c.meta["no_model"] = 1
+            c.helper = True
         cases.append(c)
     # hints that are really shown: the typed line is a prefix of a hint whose rest ends exactly at, just before or just
     # after the right margin (the line itself possibly ending in a line break), then motions, completion of the hint, edits,
